@@ -43,6 +43,14 @@ checks = {
    technique="stateless model checking of the real render pipeline under a controlled scheduler (preemption-bounded DFS + happens-before state pruning) with an in-scheduler vector-clock race detector; reference = sequential cell loop",
    text="The real uniform marching-cubes pipeline (process-global evaluation channel and workers, layer batches of 100, Triangle3Buffer, writer goroutine; sync/chan/go rewritten onto the scheduler, shared mutable package variables and receiver fields instrumented with read/write events) on position-coded lookup fields over lattices whose layers are 9, 25, 100 (exactly one batch) and 121 points, with 1-3 workers and yields inside Evaluate: ToTriangles and ToSTL under all schedules with <=2-3 preemptions, two different renders concurrently, and A;B;A histories; octree and marching-squares renderers through ToTriangles/ToSVG under all schedules. Every execution must reproduce the independent sequential reference (per-cell step over the discovered lattice) / identical file bytes; the probe render must evaluate the same points under two opposite scheduling policies; any pair of accesses to instrumented shared state that is not ordered by happens-before is a violation.",
    note="GOMAXPROCS itself is not varied (the worker count is); weak-memory effects not modelled; happens-before pruning assumes race freedom, which the vector-clock detector checks on the instrumented state; DXF/3MF bytes not explored under the scheduler"),
+ "C13": dict(engine="E", design="3/C13",
+   technique="bounded-exhaustive enumeration of triangle lists and write histories through the real writers/loader, independent byte parser",
+   text="All 1000 vertices of a 10-value coordinate menu cubed (0, -0, +-1, 1/3, 16777217, 1e-40, +-3e38, 1e39) as one file and as single-triangle files, all lists of length 0-2 over a 48-triangle menu (scales 1e-7..1e3, degenerate, reversed winding), long lists at 81/82/255/256/257/1000 (70000 thorough), and decreasing-size histories on one path written by SaveSTL, ToSTL and alternating. Oracle: own parser (80-byte header, count == n, length == 84+50n, float32 bits of every input vertex in order, zero attribute, right-hand unit normal from an independent float64 cross product), ToSTL bytes == SaveSTL bytes, LoadSTL returns the float32 roundings bit-exactly in order, reference ASCII files (LF/CRLF, %g/%e/%.9f, blanks/tabs) load to their listed vertices.",
+   note="normals checked for |coordinates| <= 1e6 and non-collinear (1e-6) triangles only"),
+ "C15": dict(engine="E", design="3/C15",
+   technique="bounded-exhaustive enumeration of geometry lists through the real writers, decoded by independent readers (go3mf, yofu/dxf, encoding/xml)",
+   text="All ordered lists of length 0-3 (4 thorough) with repetition over an 8-triangle / 8-segment menu (shared vertices, exact duplicates, reversed winding, a sliver below the 1e-6 de-duplication grid, 1e-5, 12345.678912, values rounding differently at 2/4 decimals, drawings that do not contain the origin), through To3MF, ToDXF/SaveDXF and ToSVG/SaveSVG. 3MF: one millimetre mesh object, triangle i = input i with winding, vertices = float32 at four decimals, identical corners share a vertex. DXF: one LINE per segment on layer Lines, six-decimal coordinates, in order. SVG: one <line> per segment shifted to the minimum corner with y flipped, canvas = extent.",
+   note="3MF vertex tolerance 1.5e-4 (format decimals + de-duplication grid)"),
 }
 props = [json.loads(l) for l in open(os.path.join(V, "properties.jsonl"))]
 pending_reason = "check not built yet in this session (work in progress, see DESIGN.md section 3 for the planned bounded-exhaustive check)"
